@@ -1,3 +1,787 @@
-pub fn run(ctx: vp_core::Ctx) -> ! {
-    ctx.machinery("engine not built yet")
+//! C17 — Quantized integer kernels are exact.
+//!
+//! Part 1: every int8 GEMM kernel usable on the machine, u8 x i8 -> i32 with
+//! per-row / per-column zero points, against an exact i64 reference. Kernels
+//! with `may_saturate()` are required to be exact only on the documented
+//! reduced range (u8 in [0,127], i8 in [-64,63]); the full range is measured
+//! for them and reported as an observation.
+//! Part 2: MatMulInteger, ConvInteger and DynamicQuantizeLinear->DequantizeLinear
+//! through single-operator ONNX models and `rten::Model::run`.
+
+use std::mem::MaybeUninit;
+
+use rten_gemm::{GemmExecutor, GemmInputA, GemmInputB, GemmOptions, GemmUninitOptions, QuantParams};
+use rten_tensor::prelude::*;
+use rten_tensor::{NdTensorView, Tensor};
+use vp_core::{Ctx, Json, Samples, json};
+use vp_onnx::{Graph, Node, Tensor as OTensor, ValueInfo, dtype};
+
+use crate::util;
+
+type Exec = GemmExecutor<u8, i8, i32>;
+
+#[derive(Clone, Copy, Debug, PartialEq)]
+enum Fill {
+    Const(i32),
+    Checker(i32, i32),
+}
+
+impl Fill {
+    fn at(self, i: usize, j: usize) -> i32 {
+        match self {
+            Fill::Const(v) => v,
+            Fill::Checker(a, b) => if (i + j) % 2 == 0 { a } else { b },
+        }
+    }
+    fn json(self) -> Json {
+        match self {
+            Fill::Const(v) => json!({"const": v}),
+            Fill::Checker(a, b) => json!({"checker": [a, b]}),
+        }
+    }
+    fn from_json(j: &Json) -> Fill {
+        if let Some(v) = j.get("const") {
+            Fill::Const(v.as_i64().unwrap_or(0) as i32)
+        } else {
+            Fill::Checker(j["checker"][0].as_i64().unwrap_or(0) as i32, j["checker"][1].as_i64().unwrap_or(0) as i32)
+        }
+    }
+}
+
+#[derive(Clone, Copy, Debug, PartialEq)]
+enum Zp {
+    None,
+    Uniform(i32),
+    Alt(i32, i32),
+}
+
+impl Zp {
+    fn vec(self, n: usize) -> Option<Vec<i32>> {
+        match self {
+            Zp::None => None,
+            Zp::Uniform(v) => Some(vec![v; n]),
+            Zp::Alt(a, b) => Some((0..n).map(|i| if i % 2 == 0 { a } else { b }).collect()),
+        }
+    }
+    fn json(self) -> Json {
+        match self {
+            Zp::None => json!("none"),
+            Zp::Uniform(v) => json!({"uniform": v}),
+            Zp::Alt(a, b) => json!({"alternating": [a, b]}),
+        }
+    }
+    fn from_json(j: &Json) -> Zp {
+        if let Some(v) = j.get("uniform") {
+            Zp::Uniform(v.as_i64().unwrap_or(0) as i32)
+        } else if let Some(v) = j.get("alternating") {
+            Zp::Alt(v[0].as_i64().unwrap_or(0) as i32, v[1].as_i64().unwrap_or(0) as i32)
+        } else {
+            Zp::None
+        }
+    }
+}
+
+fn fills(alphabet: &[i32]) -> Vec<Fill> {
+    let mut v: Vec<Fill> = alphabet.iter().map(|a| Fill::Const(*a)).collect();
+    for a in alphabet {
+        for b in alphabet {
+            if a != b {
+                v.push(Fill::Checker(*a, *b));
+            }
+        }
+    }
+    v
+}
+
+fn zps(alphabet: &[i32]) -> Vec<Zp> {
+    let mut v = vec![Zp::None];
+    v.extend(alphabet.iter().map(|a| Zp::Uniform(*a)));
+    for a in alphabet {
+        for b in alphabet {
+            if a != b {
+                v.push(Zp::Alt(*a, *b));
+            }
+        }
+    }
+    v
+}
+
+#[derive(Clone, Debug)]
+struct Case {
+    kernel: String,
+    m: usize,
+    k: usize,
+    n: usize,
+    a: Fill,
+    b: Fill,
+    az: Zp,
+    bz: Zp,
+    b_col_major: bool,
+    a_packed: bool,
+    b_packed: bool,
+    entry: &'static str, // gemm | gemm_uninit | gemm_beta1
+}
+
+impl Case {
+    fn json(&self) -> Json {
+        json!({"kind": "int8-gemm", "kernel": self.kernel, "m": self.m, "k": self.k, "n": self.n, "a_fill": self.a.json(), "b_fill": self.b.json(),
+            "a_zero_point": self.az.json(), "b_zero_point": self.bz.json(), "b_col_major": self.b_col_major, "a_prepacked": self.a_packed, "b_prepacked": self.b_packed, "entry": self.entry})
+    }
+    fn from_json(j: &Json) -> Case {
+        Case {
+            kernel: j["kernel"].as_str().unwrap_or("").into(),
+            m: j["m"].as_u64().unwrap_or(1) as usize,
+            k: j["k"].as_u64().unwrap_or(1) as usize,
+            n: j["n"].as_u64().unwrap_or(1) as usize,
+            a: Fill::from_json(&j["a_fill"]),
+            b: Fill::from_json(&j["b_fill"]),
+            az: Zp::from_json(&j["a_zero_point"]),
+            bz: Zp::from_json(&j["b_zero_point"]),
+            b_col_major: j["b_col_major"].as_bool().unwrap_or(false),
+            a_packed: j["a_prepacked"].as_bool().unwrap_or(false),
+            b_packed: j["b_prepacked"].as_bool().unwrap_or(false),
+            entry: match j["entry"].as_str().unwrap_or("gemm") {
+                "gemm_uninit" => "gemm_uninit",
+                "gemm_beta1" => "gemm_beta1",
+                _ => "gemm",
+            },
+        }
+    }
+    fn signature(&self, what: &str, range: &str) -> String {
+        format!(
+            "int8 gemm kernel={} path={} a={} b={} zero_points={}{} ({range}): {what}",
+            self.kernel,
+            if self.m == 1 && !self.a_packed && !self.b_packed { "gemv" } else { "tiled" },
+            if self.a_packed { "prepacked" } else { "unpacked" },
+            if self.b_packed { "prepacked" } else { "unpacked" },
+            match (self.az, self.bz) {
+                (Zp::None, Zp::None) => "none",
+                (_, Zp::None) => "a-only",
+                (Zp::None, _) => "b-only",
+                _ => "both",
+            },
+            if self.entry == "gemm_beta1" { " beta=1" } else { "" },
+        )
+    }
+}
+
+const SENTINEL: i32 = 0x7bad_beef;
+
+/// Returns None if correct, else (index, got, expected).
+fn run_case(exec: &Exec, c: &Case) -> Result<Option<(usize, i32, i64)>, String> {
+    let (m, k, n) = (c.m, c.k, c.n);
+    let a: Vec<u8> = (0..m * k).map(|x| c.a.at(x / k, x % k) as u8).collect();
+    // B storage: row-major [k,n] or column-major
+    let b: Vec<i8> = if c.b_col_major {
+        (0..k * n).map(|x| c.b.at(x % k, x / k) as i8).collect()
+    } else {
+        (0..k * n).map(|x| c.b.at(x / n, x % n) as i8).collect()
+    };
+    let az: Option<Vec<u8>> = c.az.vec(m).map(|v| v.iter().map(|x| *x as u8).collect());
+    let bz: Option<Vec<i8>> = c.bz.vec(n).map(|v| v.iter().map(|x| *x as i8).collect());
+    let av = NdTensorView::from_data([m, k], &a[..]);
+    let bv = if c.b_col_major {
+        NdTensorView::from_slice_with_strides([k, n], &b[..], [1, k]).map_err(|e| format!("{e:?}"))?
+    } else {
+        NdTensorView::from_data([k, n], &b[..])
+    };
+    let pa = if c.a_packed { Some(exec.prepack_a(av.clone())) } else { None };
+    let pb = if c.b_packed { Some(exec.prepack_b(bv.clone())) } else { None };
+    let ain = match &pa {
+        Some(p) => GemmInputA::Packed(p),
+        None => GemmInputA::Unpacked(av.clone()),
+    };
+    let bin = match &pb {
+        Some(p) => GemmInputB::Packed(p),
+        None => GemmInputB::Unpacked(bv.clone()),
+    };
+    let aq = az.as_ref().map(|z| QuantParams { zero_point: &z[..] });
+    let bq = bz.as_ref().map(|z| QuantParams { zero_point: &z[..] });
+    let prev = |i: usize| -> i32 { ((i * 37) % 1001) as i32 - 500 };
+    let mut out: Vec<i32> = if c.entry == "gemm_beta1" { (0..m * n).map(prev).collect() } else { vec![SENTINEL; m * n] };
+    match c.entry {
+        "gemm_uninit" => {
+            let un: &mut [MaybeUninit<i32>] = unsafe { std::mem::transmute::<&mut [i32], &mut [MaybeUninit<i32>]>(&mut out[..]) };
+            exec.gemm_uninit(un, ain, bin, GemmUninitOptions { alpha: 1.0, bias: None, a_quant: aq, b_quant: bq }).map(|_| ()).map_err(|e| format!("{e:?}"))?;
+        }
+        e => {
+            exec.gemm(&mut out, ain, bin, GemmOptions { alpha: 1.0, beta: if e == "gemm_beta1" { 1 } else { 0 }, bias: None, a_quant: aq, b_quant: bq }).map_err(|e| format!("{e:?}"))?;
+        }
+    }
+    for i in 0..m {
+        let azv = az.as_ref().map(|z| z[i] as i64).unwrap_or(0);
+        for j in 0..n {
+            let bzv = bz.as_ref().map(|z| z[j] as i64).unwrap_or(0);
+            let mut acc: i64 = 0;
+            for kk in 0..k {
+                acc += (c.a.at(i, kk) as u8 as i64 - azv) * (c.b.at(kk, j) as i8 as i64 - bzv);
+            }
+            if c.entry == "gemm_beta1" {
+                acc += prev(i * n + j) as i64;
+            }
+            if out[i * n + j] as i64 != acc {
+                return Ok(Some((i * n + j, out[i * n + j], acc)));
+            }
+        }
+    }
+    Ok(None)
+}
+
+struct Tally {
+    cases: u64,
+    ok: u64,
+    observed_saturation: u64,
+}
+
+fn check(ctx: &Ctx, exec: &Exec, c: &Case, verdict: bool, range: &str, t: &mut Tally) {
+    t.cases += 1;
+    match vp_core::catch(|| run_case(exec, c)) {
+        Ok(Ok(None)) => t.ok += 1,
+        Ok(Ok(Some((idx, got, exp)))) => {
+            if verdict {
+                let what = if got == SENTINEL { "output element not written" } else { "wrong value" };
+                ctx.violation(c.signature(what, range), c.json(), format!("out[{},{}] = {got}, exact value {exp}; case {}", idx / c.n, idx % c.n, c.json()));
+            } else {
+                t.observed_saturation += 1;
+            }
+        }
+        Ok(Err(e)) => {
+            if verdict {
+                ctx.violation(c.signature("returns an error for valid inputs", range), c.json(), e);
+            }
+        }
+        Err(p) => {
+            if verdict {
+                ctx.violation(c.signature("panics", range), c.json(), p);
+            }
+        }
+    }
+}
+
+const U_FULL: [i32; 7] = [0, 1, 2, 127, 128, 254, 255];
+const I_FULL: [i32; 7] = [-128, -127, -1, 0, 1, 126, 127];
+const U_RED: [i32; 7] = [0, 1, 2, 63, 64, 126, 127];
+const I_RED: [i32; 7] = [-64, -63, -1, 0, 1, 62, 63];
+const AZ: [i32; 4] = [0, 1, 128, 255];
+const BZ: [i32; 4] = [-128, -1, 0, 127];
+
+fn kernel_part(ctx: &Ctx, thorough: bool, samples: &Samples) -> (u64, u64, Json) {
+    let names: Vec<(String, bool)> = rten_gemm::verif::int8_executors().iter().map(|e| (e.kernel_name().to_string(), e.may_saturate())).collect();
+    let ms: Vec<usize> = vec![1, 2, 5, 16, 17];
+    let ks: Vec<usize> = vec![1, 2, 3, 4, 5, 8, 9, 31, 32, 33, 64];
+    let ms_a: Vec<usize> = if thorough { vec![1, 2, 5, 17] } else { vec![1, 5, 17] };
+    let ks_a: Vec<usize> = if thorough { vec![1, 2, 3, 4, 5, 8, 9, 33, 64] } else { vec![1, 3, 4, 5, 8, 33] };
+    // work items: (kernel index, sub-box, index)
+    let az_all = zps(&AZ);
+    let bz_all = zps(&BZ);
+    let mut items: Vec<(usize, u8, usize)> = Vec::new();
+    for ki in 0..names.len() {
+        for &m in &ms_a {
+            items.push((ki, b'A', m));
+        }
+        for zi in 0..az_all.len() {
+            items.push((ki, b'B', zi));
+        }
+    }
+    let results = vp_core::par::map(items.len(), |ii| {
+        let (ki, sub, idx) = items[ii];
+        let execs = rten_gemm::verif::int8_executors();
+        let exec = &execs[ki];
+        let sat = exec.may_saturate();
+        let mut t = Tally { cases: 0, ok: 0, observed_saturation: 0 };
+        let kernel = exec.kernel_name().to_string();
+        // value ranges: verdict range and (for saturating kernels) the observed-only full range
+        let ranges: Vec<(&[i32; 7], &[i32; 7], bool, &str)> = if sat {
+            vec![(&U_RED, &I_RED, true, "reduced range u8<=127, i8 in [-64,63]"), (&U_FULL, &I_FULL, false, "full range")]
+        } else {
+            vec![(&U_FULL, &I_FULL, true, "full range")]
+        };
+        for (ua, ia, verdict, rname) in ranges {
+            if sub == b'A' {
+                // box A: every fill pair x 2 zero-point combinations x shapes (this item: one m)
+                let m = idx;
+                let (fa, fb) = (fills(&ua[..]), fills(&ia[..]));
+                for &n in &ms_a {
+                    for &k in &ks_a {
+                        for a in &fa {
+                            for b in &fb {
+                                for (az, bz, entry, col) in [
+                                    (Zp::None, Zp::None, "gemm", false),
+                                    (Zp::Alt(1, 255), Zp::Alt(-128, 127), "gemm_uninit", false),
+                                    (Zp::Uniform(128), Zp::Alt(127, -1), "gemm_beta1", true),
+                                ] {
+                                    let c = Case { kernel: kernel.clone(), m, k, n, a: *a, b: *b, az, bz, b_col_major: col, a_packed: false, b_packed: false, entry };
+                                    check(ctx, exec, &c, verdict, rname, &mut t);
+                                }
+                            }
+                        }
+                    }
+                }
+            } else {
+                // box B: every zero-point combination x extreme fills x every shape x layouts/prepacking
+                let az = az_all[idx];
+                let (lo_u, hi_u, lo_i, hi_i) = (ua[0], ua[6], ia[0], ia[6]);
+                let fill_pairs = [
+                    (Fill::Const(hi_u), Fill::Const(lo_i)),
+                    (Fill::Const(hi_u), Fill::Const(hi_i)),
+                    (Fill::Checker(lo_u, hi_u), Fill::Checker(lo_i, hi_i)),
+                    (Fill::Checker(ua[5], ua[1]), Fill::Checker(hi_i, ia[1])),
+                    (Fill::Const(ua[4]), Fill::Const(-1)),
+                    (Fill::Const(0), Fill::Checker(hi_i, lo_i)),
+                ];
+                for bz in &bz_all {
+                    for &m in &ms {
+                        for &n in &ms {
+                            for &k in &ks {
+                                for (fi, (a, b)) in fill_pairs.iter().enumerate() {
+                                    // layout / prepacking variant chosen by a fixed rotation so that
+                                    // every (shape, variant) pair occurs for some fill
+                                    let variant = (fi + m + n + k) % 4;
+                                    let c = Case {
+                                        kernel: kernel.clone(), m, k, n, a: *a, b: *b, az, bz: *bz,
+                                        b_col_major: variant == 1,
+                                        a_packed: variant == 2,
+                                        b_packed: variant == 2 || variant == 3,
+                                        entry: if (m + k) % 2 == 0 { "gemm" } else { "gemm_uninit" },
+                                    };
+                                    check(ctx, exec, &c, verdict, rname, &mut t);
+                                }
+                            }
+                        }
+                    }
+                }
+            }
+        }
+        if ii % 37 == 0 {
+            samples.push(|| json!({"kernel": kernel, "sub_box": (sub as char).to_string(), "index": idx, "cases": t.cases, "exact": t.ok, "full_range_mismatches_observed": t.observed_saturation}));
+        }
+        (t.cases, t.ok, t.observed_saturation, ki)
+    });
+    let cases: u64 = results.iter().map(|r| r.0).sum();
+    let ok: u64 = results.iter().map(|r| r.1).sum();
+    let mut sat_by_kernel = vec![0u64; names.len()];
+    for r in &results {
+        sat_by_kernel[r.3] += r.2;
+    }
+    for (i, (name, sat)) in names.iter().enumerate() {
+        if *sat {
+            ctx.observe_n(&format!("kernel {name} reports may_saturate(): full-range cases that differ from the exact product (allowed by the property; reduced range is the verdict)"), sat_by_kernel[i]);
+        }
+    }
+    let info = json!({
+        "kernels": names.iter().map(|(n, s)| json!({"name": n, "may_saturate": s})).collect::<Vec<_>>(),
+        "box_A": {"fills_per_operand": fills(&U_FULL).len(), "zero_point_combos": 3, "m_n": ms_a, "k": ks_a},
+        "box_B": {"a_zero_points": az_all.len(), "b_zero_points": bz_all.len(), "fill_pairs": 6, "m_n": ms, "k": ks, "variants": ["B row-major", "B column-major", "A+B prepacked", "B prepacked"]},
+        "u8_alphabet": U_FULL, "i8_alphabet": I_FULL, "reduced_u8": U_RED, "reduced_i8": I_RED,
+        "saturating_kernel_full_range_mismatches": sat_by_kernel,
+    });
+    (cases, ok, info)
+}
+
+// ---------------------------------------------------------------------------
+// operators
+// ---------------------------------------------------------------------------
+
+fn load(g: &Graph) -> Result<rten::Model, String> {
+    rten::Model::load(vp_onnx::model_bytes(g)).map_err(|e| format!("{e}"))
+}
+
+fn int_tensor(name: &str, dims: &[i64], vals: &[i32], unsigned: bool) -> OTensor {
+    if unsigned {
+        OTensor::u8(name, dims, &vals.iter().map(|v| *v as u8).collect::<Vec<_>>())
+    } else {
+        OTensor::i8(name, dims, &vals.iter().map(|v| *v as i8).collect::<Vec<_>>())
+    }
+}
+
+fn value_of(vals: &[i32], shape: &[usize], unsigned: bool) -> rten::Value {
+    if unsigned {
+        Tensor::from_data(shape, vals.iter().map(|v| *v as u8).collect::<Vec<_>>()).into()
+    } else {
+        Tensor::from_data(shape, vals.iter().map(|v| *v as i8).collect::<Vec<_>>()).into()
+    }
+}
+
+fn matmul_integer_part(ctx: &Ctx, thorough: bool, samples: &Samples) -> (u64, u64) {
+    let (mut cases, mut ok) = (0u64, 0u64);
+    let shapes: Vec<(usize, usize, usize)> = if thorough {
+        vec![(1, 1, 1), (1, 4, 5), (2, 3, 2), (5, 9, 17), (16, 33, 16), (17, 64, 5), (1, 64, 33)]
+    } else {
+        vec![(1, 4, 5), (2, 3, 2), (5, 9, 17), (17, 33, 5)]
+    };
+    for a_unsigned in [true, false] {
+        for b_unsigned in [false, true] {
+            let ua: &[i32] = if a_unsigned { &[0, 1, 128, 255] } else { &[-128, -1, 1, 127] };
+            let ub: &[i32] = if b_unsigned { &[0, 2, 127, 255] } else { &[-128, -127, 1, 127] };
+            for &(m, k, n) in &shapes {
+                for zp_form in ["none", "scalar", "vector"] {
+                    for b_const in [false, true] {
+                        for (fa, fb) in [
+                            (Fill::Const(ua[3]), Fill::Const(ub[0])),
+                            (Fill::Checker(ua[0], ua[3]), Fill::Checker(ub[0], ub[3])),
+                            (Fill::Checker(ua[2], ua[1]), Fill::Checker(ub[3], ub[1])),
+                            (Fill::Const(ua[3]), Fill::Const(ub[3])),
+                        ] {
+                            let a: Vec<i32> = (0..m * k).map(|x| fa.at(x / k, x % k)).collect();
+                            let b: Vec<i32> = (0..k * n).map(|x| fb.at(x / n, x % n)).collect();
+                            let az: Vec<i32> = match zp_form {
+                                "none" => vec![],
+                                "scalar" => vec![ua[2]],
+                                _ => (0..m).map(|i| ua[i % 4]).collect(),
+                            };
+                            let bz: Vec<i32> = match zp_form {
+                                "none" => vec![],
+                                "scalar" => vec![ub[1]],
+                                _ => (0..n).map(|i| ub[(i + 1) % 4]).collect(),
+                            };
+                            let (ta, tb) = (if a_unsigned { dtype::UINT8 } else { dtype::INT8 }, if b_unsigned { dtype::UINT8 } else { dtype::INT8 });
+                            let mut g = Graph::new("mmi");
+                            g.inputs.push(ValueInfo::fixed("A", ta, &[m as i64, k as i64]));
+                            if b_const {
+                                g.initializers.push(int_tensor("B", &[k as i64, n as i64], &b, b_unsigned));
+                            } else {
+                                g.inputs.push(ValueInfo::fixed("B", tb, &[k as i64, n as i64]));
+                            }
+                            let mut ins = vec!["A", "B"];
+                            if zp_form != "none" {
+                                let dims_a: Vec<i64> = if zp_form == "scalar" { vec![] } else { vec![m as i64] };
+                                let dims_b: Vec<i64> = if zp_form == "scalar" { vec![] } else { vec![n as i64] };
+                                g.initializers.push(int_tensor("az", &dims_a, &az, a_unsigned));
+                                g.initializers.push(int_tensor("bz", &dims_b, &bz, b_unsigned));
+                                ins.push("az");
+                                ins.push("bz");
+                            }
+                            g.nodes.push(Node::new("MatMulInteger", &ins, &["Y"]));
+                            g.outputs.push(ValueInfo::fixed("Y", dtype::INT32, &[m as i64, n as i64]));
+                            cases += 1;
+                            let case = json!({"kind": "MatMulInteger", "a_unsigned": a_unsigned, "b_unsigned": b_unsigned, "m": m, "k": k, "n": n, "zero_points": zp_form, "b_initializer": b_const, "a_fill": fa.json(), "b_fill": fb.json()});
+                            let sig_base = format!("MatMulInteger({}x{}) zero_points={zp_form} b={}", if a_unsigned { "u8" } else { "i8" }, if b_unsigned { "u8" } else { "i8" }, if b_const { "initializer" } else { "input" });
+                            let model = match load(&g) {
+                                Ok(mo) => mo,
+                                Err(e) => {
+                                    ctx.violation(format!("{sig_base}: model does not load"), case, e);
+                                    continue;
+                                }
+                            };
+                            let mut inputs = vec![(model.node_id("A").unwrap(), value_of(&a, &[m, k], a_unsigned).into())];
+                            if !b_const {
+                                inputs.push((model.node_id("B").unwrap(), value_of(&b, &[k, n], b_unsigned).into()));
+                            }
+                            let out_id = model.node_id("Y").unwrap();
+                            let r = vp_core::catch(|| model.run(inputs, &[out_id], None));
+                            let y: Tensor<i32> = match r {
+                                Ok(Ok(mut v)) => match v.remove(0).into_tensor::<i32>() {
+                                    Some(t) => t,
+                                    None => {
+                                        ctx.violation(format!("{sig_base}: output is not an i32 tensor"), case, "");
+                                        continue;
+                                    }
+                                },
+                                Ok(Err(e)) => {
+                                    ctx.violation(format!("{sig_base}: run fails for valid inputs"), case, format!("{e}"));
+                                    continue;
+                                }
+                                Err(p) => {
+                                    ctx.violation(format!("{sig_base}: panics"), case, p);
+                                    continue;
+                                }
+                            };
+                            let yd = y.to_vec();
+                            let mut bad = None;
+                            if y.shape() != [m, n] {
+                                bad = Some(format!("output shape {:?}", y.shape()));
+                            } else {
+                                'outer: for i in 0..m {
+                                    for j in 0..n {
+                                        let azv = if az.is_empty() { 0 } else { az[i % az.len()] } as i64;
+                                        let bzv = if bz.is_empty() { 0 } else { bz[j % bz.len()] } as i64;
+                                        let mut acc = 0i64;
+                                        for kk in 0..k {
+                                            acc += (a[i * k + kk] as i64 - azv) * (b[kk * n + j] as i64 - bzv);
+                                        }
+                                        if yd[i * n + j] as i64 != acc {
+                                            bad = Some(format!("Y[{i},{j}] = {} exact {acc}", yd[i * n + j]));
+                                            break 'outer;
+                                        }
+                                    }
+                                }
+                            }
+                            match bad {
+                                None => ok += 1,
+                                Some(d) => ctx.violation(format!("{sig_base}: wrong value"), case, d),
+                            }
+                        }
+                    }
+                }
+            }
+        }
+    }
+    samples.push(|| json!({"operator": "MatMulInteger", "cases": cases, "exact": ok}));
+    (cases, ok)
+}
+
+fn conv_integer_part(ctx: &Ctx, thorough: bool, samples: &Samples) -> (u64, u64) {
+    let (mut cases, mut ok) = (0u64, 0u64);
+    // (C, H, W, M, kh, kw, pad, stride)
+    let geoms: Vec<(usize, usize, usize, usize, usize, usize, usize, usize)> = if thorough {
+        vec![(1, 3, 3, 1, 1, 1, 0, 1), (2, 5, 5, 3, 3, 3, 1, 1), (3, 7, 6, 4, 2, 3, 0, 2), (4, 8, 8, 17, 3, 3, 1, 1), (5, 6, 9, 2, 1, 1, 0, 1)]
+    } else {
+        vec![(2, 5, 5, 3, 3, 3, 1, 1), (3, 7, 6, 4, 2, 3, 0, 2), (4, 8, 8, 17, 3, 3, 1, 1)]
+    };
+    for w_unsigned in [false, true] {
+        for &(c, h, w, m, kh, kw, pad, stride) in &geoms {
+            for zp_form in ["none", "scalar", "per-channel"] {
+                for fill in 0..3 {
+                    let xv: [i32; 4] = [0, 1, 128, 255];
+                    let wv: [i32; 4] = if w_unsigned { [0, 2, 127, 255] } else { [-128, -127, 1, 127] };
+                    let x: Vec<i32> = (0..c * h * w).map(|i| match fill { 0 => 255, 1 => xv[(i * 7 + i / w) % 4], _ => if (i + i / w) % 2 == 0 { 255 } else { 0 } }).collect();
+                    let wt: Vec<i32> = (0..m * c * kh * kw).map(|i| match fill { 0 => wv[0], 1 => wv[(i * 5 + 1) % 4], _ => if i % 2 == 0 { wv[3] } else { wv[0] } }).collect();
+                    let xz: i32 = if zp_form == "none" { 0 } else { 128 };
+                    let wz: Vec<i32> = match zp_form {
+                        "none" => vec![0],
+                        "scalar" => vec![wv[2]],
+                        _ => (0..m).map(|i| wv[(i + 1) % 4]).collect(),
+                    };
+                    let mut g = Graph::new("ci");
+                    g.inputs.push(ValueInfo::fixed("X", dtype::UINT8, &[1, c as i64, h as i64, w as i64]));
+                    g.initializers.push(int_tensor("W", &[m as i64, c as i64, kh as i64, kw as i64], &wt, w_unsigned));
+                    let mut ins = vec!["X", "W"];
+                    if zp_form != "none" {
+                        g.initializers.push(int_tensor("xz", &[], &[xz], true));
+                        let dims: Vec<i64> = if zp_form == "scalar" { vec![] } else { vec![m as i64] };
+                        g.initializers.push(int_tensor("wz", &dims, &wz, w_unsigned));
+                        ins.push("xz");
+                        ins.push("wz");
+                    }
+                    let oh = (h + 2 * pad - kh) / stride + 1;
+                    let ow = (w + 2 * pad - kw) / stride + 1;
+                    g.nodes.push(
+                        Node::new("ConvInteger", &ins, &["Y"])
+                            .attr("pads", vp_onnx::Attr::Ints(vec![pad as i64; 4]))
+                            .attr("strides", vp_onnx::Attr::Ints(vec![stride as i64; 2]))
+                            .attr("kernel_shape", vp_onnx::Attr::Ints(vec![kh as i64, kw as i64])),
+                    );
+                    g.outputs.push(ValueInfo::fixed("Y", dtype::INT32, &[1, m as i64, oh as i64, ow as i64]));
+                    cases += 1;
+                    let case = json!({"kind": "ConvInteger", "w_unsigned": w_unsigned, "geometry": [c, h, w, m, kh, kw, pad, stride], "zero_points": zp_form, "fill": fill});
+                    let sig_base = format!("ConvInteger(u8 x {}) zero_points={zp_form}", if w_unsigned { "u8" } else { "i8" });
+                    let model = match load(&g) {
+                        Ok(mo) => mo,
+                        Err(e) => {
+                            ctx.observe(&format!("{sig_base}: model does not load: {e}"));
+                            continue;
+                        }
+                    };
+                    let inputs = vec![(model.node_id("X").unwrap(), value_of(&x, &[1, c, h, w], true).into())];
+                    let out_id = model.node_id("Y").unwrap();
+                    let y: Tensor<i32> = match vp_core::catch(|| model.run(inputs, &[out_id], None)) {
+                        Ok(Ok(mut v)) => match v.remove(0).into_tensor::<i32>() {
+                            Some(t) => t,
+                            None => {
+                                ctx.violation(format!("{sig_base}: output is not an i32 tensor"), case, "");
+                                continue;
+                            }
+                        },
+                        Ok(Err(e)) => {
+                            // an error is not a wrong result; record which forms are rejected
+                            ctx.observe(&format!("{sig_base}: run returns an error: {e}"));
+                            continue;
+                        }
+                        Err(p) => {
+                            ctx.violation(format!("{sig_base}: panics"), case, p);
+                            continue;
+                        }
+                    };
+                    let yd = y.to_vec();
+                    let mut bad = None;
+                    if y.shape() != [1, m, oh, ow] {
+                        bad = Some(format!("output shape {:?} expected {:?}", y.shape(), [1, m, oh, ow]));
+                    } else {
+                        'outer: for mi in 0..m {
+                            let wzv = wz[mi % wz.len()] as i64;
+                            for oy in 0..oh {
+                                for ox in 0..ow {
+                                    let mut acc = 0i64;
+                                    for ci in 0..c {
+                                        for ky in 0..kh {
+                                            for kx in 0..kw {
+                                                let iy = (oy * stride + ky) as i64 - pad as i64;
+                                                let ix = (ox * stride + kx) as i64 - pad as i64;
+                                                // padding contributes x = x_zero_point, i.e. zero after subtraction
+                                                if iy < 0 || ix < 0 || iy >= h as i64 || ix >= w as i64 {
+                                                    continue;
+                                                }
+                                                let xvv = x[ci * h * w + iy as usize * w + ix as usize] as i64 - xz as i64;
+                                                let wvv = wt[((mi * c + ci) * kh + ky) * kw + kx] as i64 - wzv;
+                                                acc += xvv * wvv;
+                                            }
+                                        }
+                                    }
+                                    let got = yd[(mi * oh + oy) * ow + ox] as i64;
+                                    if got != acc {
+                                        bad = Some(format!("Y[0,{mi},{oy},{ox}] = {got} exact {acc}"));
+                                        break 'outer;
+                                    }
+                                }
+                            }
+                        }
+                    }
+                    match bad {
+                        None => ok += 1,
+                        Some(d) => ctx.violation(format!("{sig_base}: wrong value"), case, d),
+                    }
+                }
+            }
+        }
+    }
+    samples.push(|| json!({"operator": "ConvInteger", "cases": cases, "exact": ok}));
+    (cases, ok)
+}
+
+const DQ_ALPHABET: [f32; 11] = [-100.0, -1.5, -1.0, -0.001, 0.0, 0.001, 0.5, 1.0, 2.5, 100.0, 255.0];
+
+fn dynamic_quantize_part(ctx: &Ctx, thorough: bool, samples: &Samples) -> (u64, u64) {
+    // DynamicQuantizeLinear(x) -> (y, scale, zp); DequantizeLinear(y, scale, zp) -> xr
+    let mut g = Graph::new("dql");
+    g.inputs.push(ValueInfo::new("X", dtype::FLOAT, &[vp_onnx::Dim::Sym("n".into())]));
+    g.nodes.push(Node::new("DynamicQuantizeLinear", &["X"], &["Y", "S", "Z"]));
+    g.nodes.push(Node::new("DequantizeLinear", &["Y", "S", "Z"], &["XR"]));
+    for (n, t) in [("XR", dtype::FLOAT), ("S", dtype::FLOAT), ("Y", dtype::UINT8), ("Z", dtype::UINT8)] {
+        g.outputs.push(ValueInfo::typed_no_shape(n, t));
+    }
+    let model = match load(&g) {
+        Ok(m) => m,
+        Err(e) => {
+            ctx.violation("DynamicQuantizeLinear->DequantizeLinear: model does not load", json!({"kind": "dql"}), e);
+            return (0, 0);
+        }
+    };
+    let (mut cases, mut ok) = (0u64, 0u64);
+    let lens: Vec<usize> = if thorough { vec![1, 2, 3, 4, 15, 16, 17, 63, 64, 65, 130, 257] } else { vec![1, 2, 3, 17, 64, 65, 130] };
+    let isas = util::available_isas();
+    let na = DQ_ALPHABET.len();
+    for isa in &isas {
+        util::force(isa);
+        let verdict = isa.name != "generic";
+        let mut generic_panics = 0u64;
+        for t in 0..na * na * na {
+            let tuple = [DQ_ALPHABET[t / (na * na)], DQ_ALPHABET[(t / na) % na], DQ_ALPHABET[t % na]];
+            for &len in &lens {
+                // canonical: skip duplicates of shorter periods for len < 3
+                if len == 1 && t % (na * na) != 0 {
+                    continue;
+                }
+                if len == 2 && t % na != 0 {
+                    continue;
+                }
+                let x: Vec<f32> = (0..len).map(|i| tuple[i % 3]).collect();
+                cases += 1;
+                let case = json!({"kind": "dql", "isa": isa.name, "len": len, "tuple": tuple});
+                let inputs = vec![(model.node_id("X").unwrap(), Tensor::from_data(&[len], x.clone()).into())];
+                let outs = [model.node_id("XR").unwrap(), model.node_id("S").unwrap()];
+                match vp_core::catch(|| model.run(inputs, &outs, None)) {
+                    Ok(Ok(mut v)) => {
+                        let s: Tensor<f32> = v.remove(1).into_tensor().unwrap();
+                        let xr: Tensor<f32> = v.remove(0).into_tensor().unwrap();
+                        let step = s.to_vec()[0];
+                        let xr = xr.to_vec();
+                        let worst = x.iter().zip(&xr).map(|(a, b)| (a - b).abs()).fold(0f32, f32::max);
+                        // one quantization step, plus the float rounding of the step itself
+                        let tol = step * (1.0 + 4.0 * f32::EPSILON);
+                        if xr.len() == len && worst <= tol && step.is_finite() {
+                            ok += 1;
+                        } else if verdict {
+                            let i = x.iter().zip(&xr).position(|(a, b)| !((a - b).abs() <= tol)).unwrap_or(0);
+                            ctx.violation(
+                                "DynamicQuantizeLinear->DequantizeLinear: round trip differs from the input by more than one quantization step",
+                                case,
+                                format!("isa {}: x[{i}] = {} -> {} with scale {step} (input {:?}...)", isa.name, x[i], xr.get(i).copied().unwrap_or(f32::NAN), &x[..len.min(6)]),
+                            );
+                        }
+                    }
+                    Ok(Err(e)) => {
+                        if verdict {
+                            ctx.violation("DynamicQuantizeLinear->DequantizeLinear: run fails for valid input", case, format!("{e}"));
+                        }
+                    }
+                    Err(p) => {
+                        if verdict {
+                            ctx.violation("DynamicQuantizeLinear->DequantizeLinear: panics", case, p);
+                        } else {
+                            generic_panics += 1;
+                        }
+                    }
+                }
+            }
+        }
+        if generic_panics > 0 {
+            ctx.observe_n("DynamicQuantizeLinear panics when dispatch is forced to the generic ISA (root cause: generic NarrowSaturate, reported under C18)", generic_panics);
+        }
+    }
+    util::unforce();
+    samples.push(|| json!({"operator": "DynamicQuantizeLinear->DequantizeLinear", "cases": cases, "within_one_step": ok, "alphabet": DQ_ALPHABET, "lengths": lens}));
+    (cases, ok)
+}
+
+fn replay(ctx: Ctx, path: &std::path::Path) -> ! {
+    let j = vp_core::read_replay_case(path);
+    let samples = Samples::new(4);
+    let mut n = 1u64;
+    match j["kind"].as_str().unwrap_or("") {
+        "int8-gemm" => {
+            let c = Case::from_json(&j);
+            let execs = rten_gemm::verif::int8_executors();
+            let exec = execs.iter().find(|e| e.kernel_name() == c.kernel).unwrap_or_else(|| ctx.machinery("replay: kernel not available"));
+            let mut t = Tally { cases: 0, ok: 0, observed_saturation: 0 };
+            let reduced = (0..c.m.max(2)).all(|i| (0..c.k.max(2)).all(|k| (0..=127).contains(&c.a.at(i, k)))) && (0..c.k.max(2)).all(|k| (0..c.n.max(2)).all(|jn| (-64..=63).contains(&c.b.at(k, jn))));
+            let range = if exec.may_saturate() { if reduced { "reduced range u8<=127, i8 in [-64,63]" } else { "full range" } } else { "full range" };
+            check(&ctx, exec, &c, !exec.may_saturate() || reduced, range, &mut t);
+            println!("replay int8 gemm {}: exact={}", c.json(), t.ok == 1);
+        }
+        "MatMulInteger" => n = matmul_integer_part(&ctx, true, &samples).0,
+        "ConvInteger" => n = conv_integer_part(&ctx, true, &samples).0,
+        _ => n = dynamic_quantize_part(&ctx, true, &samples).0,
+    }
+    ctx.finish("exploration", json!({"evaluations": n.max(1), "distinct_nontrivial": 2, "rule": "replay (operator cases re-run their whole small box)", "samples": [j], "exhaustive": false}), vec![]);
+}
+
+pub fn run(ctx: Ctx) -> ! {
+    if let Some(p) = ctx.replay.clone() {
+        replay(ctx, &p);
+    }
+    let thorough = ctx.tier.is_thorough();
+    let samples = Samples::new(32);
+    let (kc, kok, kinfo) = kernel_part(&ctx, thorough, &samples);
+    eprintln!("C17 kernels cases={kc} exact={kok} t={:.1}s", ctx.elapsed_s());
+    let (mc, mok) = matmul_integer_part(&ctx, thorough, &samples);
+    let (cc, cok) = conv_integer_part(&ctx, thorough, &samples);
+    eprintln!("C17 MatMulInteger cases={mc} exact={mok}; ConvInteger cases={cc} exact={cok} t={:.1}s", ctx.elapsed_s());
+    let (dc, dok) = dynamic_quantize_part(&ctx, thorough, &samples);
+    eprintln!("C17 DynamicQuantizeLinear cases={dc} ok={dok} t={:.1}s", ctx.elapsed_s());
+    if kok == 0 || mok == 0 || dok == 0 {
+        ctx.machinery("C17 vacuous: a sub-box never reached its oracle");
+    }
+    if cok == 0 {
+        ctx.observe("ConvInteger: no case reached the oracle (all forms rejected?)");
+    }
+    println!("C17 summary: kernel_cases={kc} exact={kok} MatMulInteger={mc}/{mok} ConvInteger={cc}/{cok} DynamicQuantize={dc}/{dok}");
+    let coverage = json!({
+        "evaluations": kc + mc + cc + dc,
+        "distinct_nontrivial": kok + mok + cok + dok,
+        "rule": "box A: every constant / two-value checkerboard fill of A x of B over the 7-value alphabets x 3 zero-point+entry combos x shapes; box B: every a_zero_point x b_zero_point choice (none, uniform, alternating over 4 values each) x 6 extreme fill pairs x every (m,n,k) x {B row/col-major, prepacked}; operators: MatMulInteger 4 type combos x zero-point forms x B initializer/input; ConvInteger geometries; DynamicQuantizeLinear: every 3-periodic vector over an 11-value alphabet x lengths x ISA",
+        "exhaustive": true,
+        "kernel_part": kinfo,
+        "operator_cases": {"MatMulInteger": mc, "ConvInteger": cc, "DynamicQuantizeLinear": dc},
+        "samples": samples.take(),
+    });
+    ctx.finish(
+        "exploration",
+        coverage,
+        vec![
+            "kernels with may_saturate()==true are required to be exact only for u8 in [0,127] and i8 in [-64,63] (ReducedRangeRng); their full-range mismatches are counted as observations".into(),
+            "operators run with the kernel GemmExecutor::default() picks on this machine (no hook selects the kernel inside operators)".into(),
+            "DynamicQuantizeLinear tolerance: one quantization step (the returned scale) x (1+4 eps); the generic ISA is observation-only there because its failure is the C18 NarrowSaturate defect".into(),
+            "alpha is 1 for integer kernels (the i32 path scales by float alpha; not part of the exactness claim)".into(),
+        ],
+    );
 }
